@@ -40,7 +40,28 @@ type pool struct {
 	vals    [][]byte
 	keys    []string
 	heights []uint64
+	nBase   int // hdrs[:nBase] have pairwise distinct hashes; hdrs[nBase+2*b], hdrs[nBase+2*b+1] are the same-hash siblings of hdrs[b]
 }
+
+// sibling k (1 or 2) of base header b: the same Header (hence the same Hash() and height) in a SignedHeader of
+// different bytes - Header.Hash() covers neither SignedHeader.Signature nor SignedHeader.Signer.  The node itself
+// saves every block twice under one hash (early save: the previous block's signature in the header; final save:
+// the block's own).  k == 0 is b itself.
+func (p *pool) sibling(b, k int) int {
+	if k <= 0 || b >= p.nBase {
+		return b
+	}
+	return p.nBase + 2*b + (k-1)%2
+}
+
+// the base header whose hash a header shares, and its whole same-hash group
+func (p *pool) base(i int) int {
+	if i < p.nBase {
+		return i
+	}
+	return (i - p.nBase) / 2
+}
+func (p *pool) group(i int) []int { b := p.base(i); return []int{b, p.sibling(b, 1), p.sibling(b, 2)} }
 
 func rbytes(r *rand.Rand, n int) []byte { b := make([]byte, n); r.Read(b); return b }
 
@@ -94,6 +115,27 @@ func newPool(r *rand.Rand) *pool {
 	p.vals = [][]byte{{}, rbytes(r, 8), rbytes(r, 8), rbytes(r, 33)}
 	p.keys = []string{"d", "l", "last-submitted-header-height", "last-submitted-data-height",
 		"rhb/1/h", "rhb/1/d", "rhb/10/h", "h", "t/1", "m", fmt.Sprintf("k%d", r.Intn(1000))}
+	// same-hash siblings (drawn last: everything above is what it was before they existed)
+	p.nBase = len(p.hdrs)
+	for b := 0; b < p.nBase; b++ {
+		for k := 1; k <= 2; k++ {
+			sh := &types.SignedHeader{Header: p.hdrs[b].Header}
+			if k == 1 {
+				sh.Signature = rbytes(r, 64) // another signature
+			} else {
+				sh.Signer = types.Signer{Address: rbytes(r, 20)} // no signature, another signer address
+			}
+			blob, err := sh.MarshalBinary()
+			if err != nil {
+				panic(err)
+			}
+			if !bytes.Equal(sh.Hash(), p.hdrs[b].Hash()) || bytes.Equal(blob, p.hdrBlob[b]) {
+				panic("same-hash sibling: hash differs or bytes equal")
+			}
+			p.hdrs = append(p.hdrs, sh)
+			p.hdrBlob = append(p.hdrBlob, blob)
+		}
+	}
 	return p
 }
 
@@ -157,6 +199,7 @@ type Op struct {
 	Key  string `json:"key,omitempty"`
 	V    int    `json:"v,omitempty"`
 	Junk bool   `json:"junk,omitempty"` // byhash on a hash that was never stored
+	Sib  int    `json:"sib,omitempty"`  // hand-written corpus files only: H means same-hash sibling Sib (1, 2) of base header H; resolved when loaded
 }
 type Item struct {
 	T  string `json:"t"` // op reopen crash fault
@@ -269,6 +312,96 @@ func genFaultStream(r *rand.Rand, p *pool) []Item {
 		}
 		if r.Intn(3) > 0 {
 			h = append(h, Item{T: "reopen"}, Item{T: "op", Op: rd})
+		}
+		for i, n := 0, r.Intn(3); i < n; i++ {
+			h = append(h, Item{T: "op", Op: genOp(r, p)})
+		}
+	}
+	return h
+}
+
+// the five reads that observe the block at the height / under the hash of header h
+func readsOf(p *pool, h int) []*Op {
+	n := p.hdrs[h].Height()
+	return []*Op{{K: "getblock", N: n}, {K: "getheader", N: n}, {K: "getsig", N: n}, {K: "byhash", H: h}, {K: "sigbyhash", H: h}}
+}
+
+// the same-hash overwrite stream: a height is saved, READ (some or all of the five kinds of read), and saved again
+// with a header of the SAME hash but other bytes (another signature / signer inside the SignedHeader - what the node
+// does with every block: early save, final save) and, independently, the same or other data and signature record;
+// then all five reads, a reopen or a crash (mostly), all five reads again.  Sometimes the second save meets a write
+// fault or dies in a crash (then the FIRST block must still be read), sometimes it is the identical header with other
+// data / signature record only, sometimes a third save with a DIFFERENT hash follows.
+func genSameHashStream(r *rand.Rand, p *pool) []Item {
+	var h []Item
+	ops := func(os []*Op) {
+		for _, o := range os {
+			h = append(h, Item{T: "op", Op: o})
+		}
+	}
+	some := func(os []*Op) []*Op {
+		if r.Intn(3) == 0 {
+			return os
+		}
+		var out []*Op
+		for _, o := range os {
+			if r.Intn(2) == 0 {
+				out = append(out, o)
+			}
+		}
+		if len(out) == 0 {
+			out = append(out, os[r.Intn(len(os))])
+		}
+		return out
+	}
+	for i, n := 0, r.Intn(6); i < n; i++ {
+		h = append(h, Item{T: "op", Op: genOp(r, p)})
+	}
+	for j, rounds := 0, 1+r.Intn(3); j < rounds; j++ {
+		g := p.group(r.Intn(p.nBase))
+		a := r.Intn(3)
+		b := (a + 1 + r.Intn(2)) % 3
+		if r.Intn(6) == 0 {
+			b = a // the identical header, other data / signature record
+		}
+		v1, v2 := g[a], g[b]
+		d1, s1 := r.Intn(len(p.datas)), r.Intn(len(p.sigs))
+		d2, s2 := d1, s1
+		if r.Intn(2) == 0 {
+			d2 = r.Intn(len(p.datas))
+		}
+		if r.Intn(2) == 0 || v1 == v2 {
+			s2 = (s1 + 1 + r.Intn(len(p.sigs)-1)) % len(p.sigs)
+		}
+		h = append(h, Item{T: "op", Op: &Op{K: "save", H: v1, D: d1, S: s1}})
+		ops(some(readsOf(p, v1)))
+		second := &Op{K: "save", H: v2, D: d2, S: s2}
+		switch x := r.Intn(10); {
+		case x == 0:
+			h = append(h, Item{T: "fault", Op: second, Kc: 0})
+		case x == 1:
+			h = append(h, Item{T: "crash", Op: second, Kc: r.Intn(2)})
+		default:
+			h = append(h, Item{T: "op", Op: second})
+		}
+		ops(readsOf(p, v2))
+		switch x := r.Intn(6); {
+		case x < 3:
+			h = append(h, Item{T: "reopen"})
+			ops(readsOf(p, v1))
+		case x == 3:
+			h = append(h, Item{T: "crash", Op: genOp(r, p), Kc: r.Intn(2)})
+			ops(readsOf(p, v2))
+		}
+		if r.Intn(4) == 0 {
+			// a different hash at the same height, when the pool has one
+			for o := 0; o < p.nBase; o++ {
+				if o != p.base(v1) && p.hdrs[o].Height() == p.hdrs[v1].Height() {
+					h = append(h, Item{T: "op", Op: &Op{K: "save", H: p.sibling(o, r.Intn(3)), D: r.Intn(len(p.datas)), S: r.Intn(len(p.sigs))}})
+					ops(readsOf(p, v1))
+					break
+				}
+			}
 		}
 		for i, n := 0, r.Intn(3); i < n; i++ {
 			h = append(h, Item{T: "op", Op: genOp(r, p)})
@@ -475,13 +608,14 @@ type oracle struct {
 	// what operations that FAILED with a write error tried to write (nothing of it may ever be read)
 	failedHeights map[uint64]bool
 	failedBlocks  map[uint64][]refBlock
+	ackedBlocks   map[uint64][]refBlock // every block a completed save stored at the height, in order
 	failedStates  map[int]bool
 	failedMeta    map[string]map[int]bool
 }
 
 func newOracle(p *pool) *oracle {
 	return &oracle{p: p, blocks: map[uint64]refBlock{}, state: -1, meta: map[string]int{},
-		failedHeights: map[uint64]bool{}, failedBlocks: map[uint64][]refBlock{}, failedStates: map[int]bool{}, failedMeta: map[string]map[int]bool{}}
+		failedHeights: map[uint64]bool{}, failedBlocks: map[uint64][]refBlock{}, ackedBlocks: map[uint64][]refBlock{}, failedStates: map[int]bool{}, failedMeta: map[string]map[int]bool{}}
 }
 
 func (o *oracle) restarted() { o.restartedSince = true }
@@ -495,6 +629,11 @@ func (o *oracle) readSig(def string, fromFailed bool) string {
 }
 
 func (o *oracle) failedBlock(n uint64, match func(refBlock) bool) bool {
+	for _, b := range o.ackedBlocks[n] { // an earlier acknowledged write explains it: a stale read, not a failed write
+		if match(b) {
+			return false
+		}
+	}
 	for _, b := range o.failedBlocks[n] {
 		if match(b) {
 			return true
@@ -585,7 +724,9 @@ func (o *oracle) observe(op *Op, got out) {
 			o.fail("op-failed", "SaveBlockData returned an error")
 		}
 		if got.kind == "unit" {
-			o.blocks[o.p.hdrs[op.H].Height()] = refBlock{op.H, op.D, op.S}
+			n := o.p.hdrs[op.H].Height()
+			o.blocks[n] = refBlock{op.H, op.D, op.S}
+			o.ackedBlocks[n] = append(o.ackedBlocks[n], o.blocks[n])
 		}
 	case "getblock":
 		b, ok := o.blocks[op.N]
@@ -664,6 +805,7 @@ func (o *oracle) afterCrash(r *runner, op *Op) {
 		// by-hash must agree with whichever happened
 		if isNew {
 			o.blocks[n] = refBlock{op.H, op.D, op.S}
+			o.ackedBlocks[n] = append(o.ackedBlocks[n], o.blocks[n])
 			bh := r.exec(&Op{K: "byhash", H: op.H})
 			if bh.kind != "block" || bh.a != uint64(op.H) {
 				o.fail("crash-torn-save", "after a crash the new block is readable by height but not by hash")
@@ -800,7 +942,12 @@ func runCase(p *pool, hist []Item, disk bool) (res *caseResult) {
 		sort.Slice(ns, func(i, j int) bool { return ns[i] < ns[j] })
 		for _, n := range ns {
 			or.observe(&Op{K: "getblock", N: n}, r.exec(&Op{K: "getblock", N: n}))
+			or.observe(&Op{K: "getheader", N: n}, r.exec(&Op{K: "getheader", N: n}))
 			or.observe(&Op{K: "getsig", N: n}, r.exec(&Op{K: "getsig", N: n}))
+			if b, ok := or.blocks[n]; ok {
+				or.observe(&Op{K: "byhash", H: b.h}, r.exec(&Op{K: "byhash", H: b.h}))
+				or.observe(&Op{K: "sigbyhash", H: b.h}, r.exec(&Op{K: "sigbyhash", H: b.h}))
+			}
 		}
 		var ks []string
 		for k := range or.failedMeta {
@@ -900,13 +1047,13 @@ func projKey(k string) string {
 
 func (p *pool) coqDefs(used map[int]bool) []string {
 	var defs []string
-	seen := map[string]bool{}
+	seen := map[string]string{}
 	for i, h := range p.hdrs {
 		pr := string(h.Hash()[:hashProj])
-		if seen[pr] {
+		if full, ok := seen[pr]; ok && full != string(h.Hash()) {
 			panic("hash projection collision")
 		}
-		seen[pr] = true
+		seen[pr] = string(h.Hash())
 		if !used[i] {
 			continue
 		}
@@ -1062,10 +1209,20 @@ func TestVerif(t *testing.T) {
 		r := caseRng(j.seed, j.c)
 		p := newPool(r)
 		hist := j.hist
+		for i := range hist { // corpus files name same-hash siblings relative to a base header
+			if o := hist[i].Op; o != nil && o.Sib != 0 {
+				c := *o
+				c.H, c.Sib = p.sibling(o.H%p.nBase, o.Sib), 0
+				hist[i].Op = &c
+			}
+		}
 		if hist == nil {
 			if j.c%4 == 3 {
 				hist = genFaultStream(r, p)
 				res.Count("history:fault-read-retry-reopen-stream")
+			} else if j.c%4 == 1 {
+				hist = genSameHashStream(r, p)
+				res.Count("history:same-hash-overwrite-stream")
 			} else {
 				hist = genHistory(r, p, maxLen)
 			}
@@ -1076,18 +1233,37 @@ func TestVerif(t *testing.T) {
 		}
 		res.Evaluations++
 		nsave, ncrash, nreopen, over := 0, 0, 0, false
+		sameOver, sameOverRead := false, false
 		seenH := map[uint64]int{}
+		readSince := map[uint64]bool{} // the height was read (header or block, by height or by hash) since its last save
 		for _, it := range hist {
 			res.Count("item:" + it.T)
 			if it.Op != nil {
 				res.Count("op:" + it.Op.K)
-				if it.Op.K == "save" {
+				switch it.Op.K {
+				case "save":
 					nsave++
 					hh := p.hdrs[it.Op.H].Height()
 					if prev, ok := seenH[hh]; ok && prev != it.Op.H {
-						over = true
+						if p.base(prev) == p.base(it.Op.H) {
+							sameOver = true
+							if readSince[hh] {
+								sameOverRead = true
+							}
+						} else {
+							over = true
+						}
 					}
 					seenH[hh] = it.Op.H
+					readSince[hh] = false
+				case "getblock", "getheader":
+					if it.T == "op" {
+						readSince[it.Op.N] = true
+					}
+				case "byhash":
+					if it.T == "op" && !it.Op.Junk {
+						readSince[p.hdrs[it.Op.H].Height()] = true
+					}
 				}
 			}
 			if it.T == "crash" {
@@ -1099,6 +1275,12 @@ func TestVerif(t *testing.T) {
 		}
 		if over {
 			res.Count("history:overwrites-height-with-different-hash")
+		}
+		if sameOver {
+			res.Count("history:overwrites-height-with-same-hash-other-header-bytes")
+		}
+		if sameOverRead {
+			res.Count("history:overwrites-height-with-same-hash-other-header-bytes-after-a-read-of-that-height")
 		}
 		res.Distribution["fault:met(operation-returned-at-the-failed-write)"] += cr.nMet
 		res.Distribution["fault:not-met(operation-made-fewer-write-attempts)"] += cr.nUnmet
@@ -1143,7 +1325,7 @@ func TestVerif(t *testing.T) {
 		}
 	}
 	res.Distinct = len(distinct)
-	res.Rule = "histories of 1..maxLen items over store operations (26% saves, crashes inside operations with 0..2 atomic writes surviving, transient write faults inside operations = write attempt 0 or 1 of the operation returns an error once and the store stays open, reopen) on pools of 8 heights x 1-3 headers each so that overwrites at one height with a different hash occur; every 4th case is a fault / read / retry / read / reopen / read stream over the four writing operations between random operations; every history ends with reads of everything acknowledged and of everything a failed operation tried to write, a close/reopen, and the same reads again; every 25th case on a real on-disk badger with true close/reopen; non-trivial = at least 3 items and one save; distinct = distinct Coq history terms"
+	res.Rule = "histories of 1..maxLen items over store operations (26% saves, crashes inside operations with 0..2 atomic writes surviving, transient write faults inside operations = write attempt 0 or 1 of the operation returns an error once and the store stays open, reopen) on pools of 8 heights x 1-3 headers each so that overwrites at one height with a different hash occur, every header with two same-hash siblings (same Header, other Signature / Signer inside the SignedHeader, other stored bytes; compared by the pool index of the stored bytes) so that overwrites with the SAME hash and other bytes occur; every 4th case is a same-hash overwrite stream (save, some of the five kinds of read, save of a same-hash sibling with the same or other data and signature record - sometimes faulted or crashed -, all five reads, reopen or crash, all five reads); every 4th case is a fault / read / retry / read / reopen / read stream over the four writing operations between random operations; every history ends with reads of everything acknowledged and of everything a failed operation tried to write, a close/reopen, and the same reads again; every 25th case on a real on-disk badger with true close/reopen; non-trivial = at least 3 items and one save; distinct = distinct Coq history terms"
 	res.Cases = len(cases)
 	header := "From Coq Require Import String Ascii NArith List Bool.\nFrom Verif Require Import Base.KV Base.Keys Model.Store Check.StoreCheck."
 	defsAll = append([]string{"Definition bad_case : scase := {| sc_hist := []; sc_outs := [None]; sc_image := []; sc_shapes := []; sc_faults := [] |}."}, defsAll...)
